@@ -797,7 +797,11 @@ impl Model<'_> {
 		out
 	}
 	pub fn eval_entry(&mut self, e: &Entry) -> Result<Value, Class> {
-		let mut cur = self.import(CWD, &e.spelling, e.kind)?;
+		self.eval_entry_from(CWD, e)
+	}
+	/// the entry import is written in a file that lives in `base`
+	pub fn eval_entry_from(&mut self, base: &str, e: &Entry) -> Result<Value, Class> {
+		let mut cur = self.import(base, &e.spelling, e.kind)?;
 		let mut steps: Vec<&str> = e.proj.iter().map(String::as_str).collect();
 		match e.leaf {
 			Leaf::Id => steps.push("id"),
@@ -834,7 +838,7 @@ struct Live {
 
 /// Values in logs: byte arrays are shown as text so that run-specific paths inside file
 /// contents can be scrubbed (the comparison itself is on the real value)
-fn show(v: &Value) -> String {
+pub fn show(v: &Value) -> String {
 	if let Value::Array(a) = v {
 		if !a.is_empty() && a.iter().all(|x| x.as_u64().is_some_and(|n| n < 256)) {
 			let bytes: Vec<u8> = a.iter().map(|x| x.as_u64().unwrap_or(0) as u8).collect();
@@ -844,7 +848,7 @@ fn show(v: &Value) -> String {
 	v.to_string()
 }
 
-fn snippet_for(e: &Entry) -> String {
+pub fn snippet_for(e: &Entry) -> String {
 	let kw = match e.kind {
 		Kind::Code => "import",
 		Kind::Str => "importstr",
@@ -953,7 +957,7 @@ fn run_entry(state: &State, e: &Entry, root: Option<&str>) -> JrResult<Value> {
 	}
 }
 
-fn file_id_of(contents: &[Content], loaded: &BTreeMap<String, Loaded>, path: &str) -> Value {
+pub fn file_id_of(contents: &[Content], loaded: &BTreeMap<String, Loaded>, path: &str) -> Value {
 	match loaded.get(path) {
 		Some(Loaded::Good(c)) => match &contents[*c] {
 			Content::Code { cid, .. } => json!({ "file_id": cid }),
